@@ -22,7 +22,7 @@ RULE = (
     "(3) two blocks with the same law must not share one draw. Non-trivial: expected size distribution has >= 4 sizes with mass >= 2%; distinct by case."
 )
 ASSUMPTIONS = ["generations whose draw raises (C11 known finding) are skipped; a GOF case with draw failures is not decided statistically", "statistical false-alarm bound < 1e-9 per case"]
-FLOORS = {"quick": {"quantile_decided": 700, "gof_cases_decided": 6, "molecules": 3000, "distinct_nontrivial": 10}, "thorough": {"quantile_decided": 20000, "gof_cases_decided": 40}}
+FLOORS = {"quick": {"large_mass_generations": 8, "quantile_decided": 700, "gof_cases_decided": 6, "molecules": 3000, "distinct_nontrivial": 10}, "thorough": {"quantile_decided": 20000, "gof_cases_decided": 40}}
 
 UNITS = ["CC", "CCO", "CC(C)C(=O)OC", "Cc1ccccc1", "C(F)F", "CS", "CC(C)(C)C", "C1CCCCC1"]
 # parameters in multiples of the unit mass m (so that blocks have a handful of units whatever the fragment)
@@ -34,6 +34,10 @@ CASES = [
     ("flory_schulz", lambda m: (round(1 / (3 * m), 5),)), ("flory_schulz", lambda m: (round(1 / (1.5 * m), 5),)),
     ("schulz_zimm", lambda m: (round(9 * m), round(6 * m))), ("schulz_zimm", lambda m: (round(9.6 * m), round(8 * m))), ("schulz_zimm", lambda m: (round(6.4 * m), round(6 * m))),
 ]
+
+
+HEAVY_UNIT = "C(I)(I)C(I)(I)C(I)(I)C(I)(I)C(I)(I)C(I)(I)C(I)(I)C(I)(I)"  # 2126.6 u
+LARGE = [("schulz_zimm", (75000, 50000)), ("gauss", (80000, 8000)), ("log_normal", (60000, 1.3)), ("uniform", (50000, 120000)), ("schulz_zimm", (150000, 100000))]
 
 
 def plan(tier, seed):
@@ -53,6 +57,10 @@ def plan(tier, seed):
             ua, ub = UNITS[(i + r) % len(UNITS)], UNITS[(i + r + 3) % len(UNITS)]
             m = 0.5 * (gen.fragment_info(ua)[2] + gen.fragment_info(ub)[2])
             cases.append({"kind": "copolymer", "family": fam, "params": list(pf(m)), "unit": ua, "unit2": ub, "nq": 50 if tier == "quick" else 400, "seed": seed * 100 + r, "blocks": 1})
+    # realistic masses (tens of kg/mol) on a heavy unit: sampling tables / caches sized for the documentation's small examples show up here
+    large = LARGE if tier == "thorough" else [LARGE[seed % len(LARGE)]]
+    for fam, p in large:
+        cases.insert(0, {"kind": "quantile", "family": fam, "params": list(p), "unit": HEAVY_UNIT, "nq": 16 if tier == "quick" else 80, "seed": seed * 100 + 77, "blocks": 1, "large": True})
     return [c for c in cases if not (c["kind"] == "quantile" and c["family"] == "poisson")]
 
 
@@ -154,6 +162,8 @@ def run_case(case):
             if obs["status"] != "ok":
                 cnt["generation_" + obs["status"]] += 1
                 continue
+            if case.get("large"):
+                cnt["large_mass_generations"] += 1
             sizes = block_sizes(obs["mol"], lib, units)
             draws = [e["value"] for e in obs["events"] if e["k"] == "draw"]
             Tref = ref.ppf(q)
@@ -175,7 +185,7 @@ def run_case(case):
                 cnt["quantile_decided"] += 1
                 if n != lo:
                     viol.append({"cls": "c09.quantile.block-size-differs", "msg": f"{label}: under quantile {q!r} block {b} has {n} units of mass {m:.3f}; the declared law's quantile T = {Tref!r} gives {lo} (the library drew {draws})", "text": text, "q": q})
-        if cnt["quantile_decided"] >= 50:
+        if cnt["quantile_decided"] >= (10 if case.get("large") else 50):
             nt.append("quantile:" + label)
     else:
 
